@@ -83,6 +83,14 @@ Section SNR.
   Proof.
     induction n; cbn [s_pow pow]; [apply s2r_Z | rewrite s2r_mul, IHn; reflexivity].
   Qed.
+  Lemma s2r_pows_from x acc n : forall i z, (i <= n)%nat -> s2r (nth i (s_pows_from x acc n) z) = s2r acc * s2r x ^ i.
+  Proof.
+    revert acc; induction n as [|n IH]; intros acc i z Hi.
+    - replace i with 0%nat by lia. cbn [s_pows_from nth pow]. ring.
+    - destruct i as [|i]; cbn [s_pows_from nth pow]; [ring|]. rewrite IH by lia. rewrite s2r_mul. ring.
+  Qed.
+  Lemma s2r_pows x n i z : (i <= n)%nat -> s2r (nth i (s_pows x n) z) = s2r x ^ i.
+  Proof. intros H. unfold s_pows. rewrite s2r_pows_from by exact H. rewrite s2r_Z. ring. Qed.
   Lemma s2r_sum l : s2r (s_sum b l) = rsum (map s2r l).
   Proof. induction l; cbn [s_sum map rsum]; [apply s2r_Z | rewrite s2r_add, IHl; reflexivity]. Qed.
   Lemma s2r_dot a c : s2r (s_dot b a c) = rdot (map s2r a) (map s2r c).
